@@ -68,9 +68,13 @@ fn cmd_check(id: &str, tier: Tier) -> i32 {
     }
     let known = load_known();
     let mut total = Stats::default();
+    let _ = &known;
     let mut rules = vec![];
     let mut per_stage = serde_json::Map::new();
     for stage in &stages {
+        if stage.cases(tier) == 0 {
+            continue;
+        }
         let s = match stage.profile {
             Profile::Release if !cfg!(debug_assertions) => run_stage_here(stage, tier, seed),
             Profile::Debug if cfg!(debug_assertions) => run_stage_here(stage, tier, seed),
@@ -98,6 +102,46 @@ fn cmd_check(id: &str, tier: Tier) -> i32 {
         total.merge(s);
         if stop {
             break;
+        }
+    }
+    // C06: re-execute the same batch in freshly started processes and compare observations
+    if id == "C06" && total.violations.is_empty() {
+        let obs = vcore::props::more::C06_OBS.lock().unwrap().clone();
+        let path = vcore::runner::verif_root().join("target").join(format!("c06-ref-{}-{seed}.json", std::process::id()));
+        std::fs::write(&path, serde_json::to_string(&obs).unwrap()).expect("write C06 reference");
+        let nproc = if tier == Tier::Quick { 2 } else { 3 };
+        let me = std::env::current_exe().unwrap();
+        let mut compared = 0u64;
+        'procs: for k in 0..nproc {
+            for stage in &stages {
+                let out = std::process::Command::new(&me)
+                    .args(["part", id, stage.prop.stage(), &stage.cases(tier).to_string(), &seed.to_string()])
+                    .env("VERIF_C06_REF", &path)
+                    .output()
+                    .expect("spawn C06 child");
+                let stdout = String::from_utf8_lossy(&out.stdout);
+                let Some(line) = stdout.lines().find(|l| l.starts_with("STATS ")) else {
+                    println!("INCONCLUSIVE property=C06 child {k} produced no stats: {stdout}");
+                    return 2;
+                };
+                let s: Stats = serde_json::from_str(&line[6..]).expect("child stats");
+                compared += s.labels.get("compared-cross-process").copied().unwrap_or(0);
+                total.evaluations += s.evaluations;
+                let stop = !s.violations.is_empty();
+                total.violations.extend(s.violations);
+                if stop {
+                    break 'procs;
+                }
+            }
+        }
+        let _ = std::fs::remove_file(&path);
+        per_stage.insert(
+            "cross-process".to_string(),
+            serde_json::json!({"fresh_processes": nproc, "case_comparisons": compared}),
+        );
+        if compared == 0 {
+            println!("INCONCLUSIVE property=C06: no case was compared across processes");
+            return 2;
         }
     }
     rules.dedup_by(|a, b| a.split("] ").nth(1) == b.split("] ").nth(1));
